@@ -6,6 +6,7 @@ import (
 	"time"
 
 	"github.com/lidofinance/dc4bc/client/api/dto"
+	"github.com/lidofinance/dc4bc/fsm/types/requests"
 	"github.com/lidofinance/dc4bc/storage"
 
 	"verifharness/oracle"
@@ -138,6 +139,22 @@ func runC08(c *Ctx, kind string, seed uint64) {
 			_ = w.Board.Send(f) // broken signature
 		}
 		_ = w.Board.Send(storage.Message{DkgRoundID: "junk-round", Event: "bogus", Data: r.Bytes(20), SenderAddr: "nobody", Signature: r.Bytes(64)})
+		// forged failure reports in a participant's name (junk signature): rejected by every honest node
+		for _, rd := range rounds {
+			for _, ev := range []string{EvDecline, EvCommitErr, EvDealErr, EvResponseErr, EvMasterKeyErr, EvPartialErr} {
+				var data []byte
+				if ev == EvDecline {
+					data = mkReq(requests.SignatureProposalParticipantRequest{ParticipantId: 1, CreatedAt: now()})
+				} else {
+					data = mkReq(requests.DKGProposalConfirmationErrorRequest{ParticipantId: 1, Error: requests.NewFSMError(fmt.Errorf("forged")), CreatedAt: now()})
+				}
+				_ = w.Board.Send(storage.Message{DkgRoundID: rd, Event: ev, Data: data, SenderAddr: w.Nodes[1].Name, Signature: r.Bytes(64)})
+			}
+		}
+		// unauthenticated reinitialisation messages: malformed, and empty for an unused round id
+		_ = w.Board.Send(storage.Message{DkgRoundID: "", Event: EvReinit, Data: []byte(`{"dkg_id":"","threshold":0}`), SenderAddr: "nobody", Signature: []byte("x")})
+		rid := fmt.Sprintf("%064x", r.Uint64())
+		_ = w.Board.Send(storage.Message{DkgRoundID: rid, Event: EvReinit, Data: []byte(`{"dkg_id":"` + rid + `","threshold":2,"participants":[],"messages":[]}`), SenderAddr: "nobody", Signature: []byte("x")})
 	}
 	switch kind {
 	case "cancelled":
@@ -162,10 +179,11 @@ func runC08(c *Ctx, kind string, seed uint64) {
 			return
 		}
 	}
-	steps := 0
+	steps, junkRounds := 0, 0
 	policy := func(w *world.World, acts []world.Action) (*world.Action, int) {
 		steps++
-		if kind == "honest+junk" && steps%9 == 0 {
+		if kind == "honest+junk" && steps%9 == 0 && junkRounds < 8 {
+			junkRounds++
 			junk()
 		}
 		return world.RandomPolicy(w, acts)
@@ -177,8 +195,9 @@ func runC08(c *Ctx, kind string, seed uint64) {
 	for _, rd := range rounds {
 		ce := &Ceremony{W: w, N: n, T: t, Round: rd}
 		if !ce.AllIn(StIdle) {
-			c.Inconclusive("%s: round %s ended %v", kind, trunc(rd, 6), ce.States())
-			return
+			// still a log worth replaying: whatever happened live must happen again on replay
+			c.Note("%s: round %s ended %v (replays are still compared)", kind, trunc(rd, 6), ce.States())
+			continue
 		}
 		slow := r.Intn(n)
 		var signers []int
@@ -205,9 +224,9 @@ func judgeReplays(c *Ctx, kind string, seed uint64, w *world.World, rounds []str
 	for _, live := range w.Nodes {
 		ref := viewOf(live, rounds, oracle.ProjOpts{})
 		// (a) different splits of consumption into polls
-		splits := []string{"one-per-poll", "all-in-one", "random", "random", "random", "random", "random"}
+		splits := []string{"one-per-poll", "all-in-one", "random", "random", "random", "random", "random", "restart-each-poll", "random+restarts", "random+restarts"}
 		for si, sp := range splits {
-			rn, _, err := replayNode(live, log)
+			rn, rb, err := replayNode(live, log)
 			if err != nil {
 				c.Inconclusive("replay node: %v", err)
 				return
@@ -219,6 +238,18 @@ func judgeReplays(c *Ctx, kind string, seed uint64, w *world.World, rounds []str
 					upto = int(rn.Offset()) + 1
 				case "random":
 					upto = int(rn.Offset()) + 1 + r.Intn(len(log)-int(rn.Offset()))
+				case "restart-each-poll", "random+restarts":
+					upto = int(rn.Offset()) + 1
+					if sp == "random+restarts" {
+						upto = int(rn.Offset()) + 1 + r.Intn(len(log)-int(rn.Offset()))
+					}
+					// a restart of the node process between polls: same durable state, fresh services
+					if sp == "restart-each-poll" || r.Intn(3) == 0 {
+						if err := rn.WireHot(rn.Mem, rb); err != nil {
+							c.Inconclusive("rewire: %v", err)
+							return
+						}
+					}
 				}
 				if _, err := rn.PollStep(upto); err != nil {
 					break
